@@ -41,6 +41,19 @@
 (* or threshold that is secretly absolute (a column of tiny absolute scale *)
 (* treated as constant, a cut-off against machine epsilon) is exposed.     *)
 (*                                                                         *)
+(* GRADED FAMILY.  Field gexp (p integers, all 0 outside the family): in   *)
+(* covariance mode and for the truncated SVD column j was multiplied by    *)
+(* 2^gexp[j], gexp[j] in {0, -300, -600}, at least one column at 2^0 and at *)
+(* least two graded.  This is NOT an invariance and nothing is descaled:   *)
+(* the recorded P, Y belong to the graded problem.  A graded column        *)
+(* contributes at most 2^-300 of the leading columns to every quantity the *)
+(* clauses look at, which is far below the quantisation step, so the spec  *)
+(* evaluates the same clauses with those columns of the data replaced by   *)
+(* exact zeros (PcZeroGraded).  Finite outputs, orthonormal components,    *)
+(* the affine map, decorrelation, ordering, the eigen-equation and the     *)
+(* captured variance are all decided; only the components *within* the     *)
+(* graded columns' own tiny subspace are left to orthonormality alone.     *)
+(*                                                                         *)
 (* ENTRY POINTS.  Field entry = "inherent" (PCA::fit, transform) or "api"  *)
 (* (api::UnsupervisedEstimator::fit, api::Transformer::transform, fully    *)
 (* qualified); same contract.  SIZE LADDER: data sets with 63..1025 rows   *)
@@ -60,6 +73,11 @@ VarsN2(X) == [j \in 1..PcNCols(X) |-> PcVarN2(X, j)]
 \* query rows centred with the training column sums: m z_ij - s_j
 CentredQueryWith(X, Z, s) == [i \in 1..Len(Z) |-> [j \in 1..PcNCols(X) |-> Len(X) * Z[i][j] - s[j]]]
 CentredQuery(X, Z) == CentredQueryWith(X, Z, PcColSums(X))
+
+\* graded family: the graded columns of an integer data matrix, as exact zeros
+PcZeroGraded(Mx, gexp) ==
+    IF \A j \in 1..Len(gexp) : gexp[j] = 0 THEN Mx
+    ELSE [i \in 1..Len(Mx) |-> [j \in 1..Len(Mx[i]) |-> IF gexp[j] < 0 THEN 0 ELSE Mx[i][j]]]
 
 \* ------------------------------------------------------------ Pca
 PcaShapes(e, o) ==
@@ -102,7 +120,7 @@ PcaClause(e) ==
     ELSE IF ~e.fin THEN "NotFinite"
     ELSE IF \E i \in 1..Len(e.q) : ~PcaShapes(e, e.q[i]) THEN "Shape"
     ELSE IF e.mode = "corr" /\ \E j \in 1..PcNCols(e.X) : PcVarN2(e.X, j) = 0 THEN "Unconstrained"
-    ELSE PcaClauseAt(e, PcCentred(e.X), CentredQuery(e.X, e.Z), VarsN2(e.X))
+    ELSE PcaClauseAt(e, PcZeroGraded(PcCentred(e.X), e.gexp), PcZeroGraded(CentredQuery(e.X, e.Z), e.gexp), VarsN2(e.X))
 
 PcaHit(e, c) ==
     IF c \in {"OutOfRange", "Unconstrained"} THEN c
@@ -118,7 +136,7 @@ TsvdShapes(e, o) ==
 
 TsvdScaleOK(e, o) ==
     /\ PcSvdInRange(e.X, o.Vf, o.sv, <<>>, o.S)
-    /\ PcSvdInRange2(e.X, PcProject(e.X, o.Vf))
+    /\ PcSvdInRange2(e.X, PcProject(PcZeroGraded(e.X, e.gexp), o.Vf))
     /\ PcEnergyInRange(o.Y, e.k)
     /\ PcSatMul(PcMaxAbsM(o.Cm) + 1, PcMaxAbsM(o.Cm) + 1) < PcCap \div (PcNCols(e.X) + 1)
     /\ PcSatMul(PcNCols(e.X) * PcMaxAbsM(e.Z), PcMaxAbsM(o.Cm) + 1) < PcCap
@@ -126,14 +144,15 @@ TsvdScaleOK(e, o) ==
 RECURSIVE TsvdPick(_, _)
 TsvdPick(e, i) == IF i > Len(e.q) THEN 0 ELSE IF TsvdScaleOK(e, e.q[i]) THEN i ELSE TsvdPick(e, i + 1)
 
-TsvdContract(e, o, W) ==
+\* Xe, Ze: data and query rows with the graded columns as zeros
+TsvdContract(e, o, W, Xe, Ze) ==
     LET k == e.k S == o.S IN
     IF ~Orthonormal(o.Cm, k, S) THEN "Orthonormal"
-    ELSE IF ~LinearMap(e.X, o.Cm, o.Y, k) THEN "LinearMap"
-    ELSE IF ~SingularBasis(e.X, o.Vf, W, S) THEN "SingularBasis"
-    ELSE IF ~SingularValues(e.X, W, o.sv) THEN "SingularValues"
-    ELSE IF ~Frobenius(e.X, o.Y, W, k) THEN "Frobenius"
-    ELSE IF ~LinearMap(e.Z, o.Cm, o.YZ, k) THEN "StackLinearMap"
+    ELSE IF ~LinearMap(Xe, o.Cm, o.Y, k) THEN "LinearMap"
+    ELSE IF ~SingularBasis(Xe, o.Vf, W, S) THEN "SingularBasis"
+    ELSE IF ~SingularValues(Xe, W, o.sv) THEN "SingularValues"
+    ELSE IF ~Frobenius(Xe, o.Y, W, k) THEN "Frobenius"
+    ELSE IF ~LinearMap(Ze, o.Cm, o.YZ, k) THEN "StackLinearMap"
     ELSE IF ~StackEqual(o.YZ, o.YZs) THEN "StackEqual"
     ELSE ""
 
@@ -143,7 +162,9 @@ TsvdClause(e) ==
     ELSE IF ~e.fin THEN "NotFinite"
     ELSE IF \E i \in 1..Len(e.q) : ~TsvdShapes(e, e.q[i]) THEN "Shape"
     ELSE LET i == TsvdPick(e, 1) IN
-         IF i = 0 THEN "OutOfRange" ELSE TsvdContract(e, e.q[i], PcProject(e.X, e.q[i].Vf))
+         IF i = 0 THEN "OutOfRange"
+         ELSE TsvdContract(e, e.q[i], PcProject(PcZeroGraded(e.X, e.gexp), e.q[i].Vf),
+                           PcZeroGraded(e.X, e.gexp), PcZeroGraded(e.Z, e.gexp))
 
 TsvdHit(e, c) == IF c = "OutOfRange" THEN c ELSE IF e.k >= PcNCols(e.X) THEN "TsvdReject" ELSE "Tsvd"
 
@@ -155,13 +176,16 @@ HitNames == {"Pca_cov_svd_k", "Pca_cov_svd_full", "Pca_cov_evd_k", "Pca_cov_evd_
              \* second counter: membership of the offset / column-scale family, by code path
              "Offset_cov_svd", "Offset_cov_evd", "Offset_corr",
              "Scaled_cov_svd", "Scaled_cov_evd", "Scaled_corr_tall", "Scaled_corr_wide", "Plain",
+             "Graded_cov_svd", "Graded_cov_evd", "Graded_tsvd",
              "Entry_api", "Entry_inherent", "Rows_upto_40", "Rows_63_257", "Rows_1023_1025", "Rows_other"}
 RowsHit(e) == LET m == Len(e.X) IN
               IF m <= 40 THEN "Rows_upto_40" ELSE IF m >= 63 /\ m <= 257 THEN "Rows_63_257"
               ELSE IF m >= 1023 /\ m <= 1025 THEN "Rows_1023_1025" ELSE "Rows_other"
 PcAllZero(v) == \A j \in 1..Len(v) : v[j] = 0
 OffsetHit(e) ==
-    IF e.ev # "Pca" \/ (PcAllZero(e.off) /\ PcAllZero(e.cexp)) THEN "Plain"
+    IF ~PcAllZero(e.gexp) THEN (IF e.ev = "Tsvd" THEN "Graded_tsvd"
+                                ELSE IF Len(e.X) > PcNCols(e.X) THEN "Graded_cov_svd" ELSE "Graded_cov_evd")
+    ELSE IF e.ev # "Pca" \/ (PcAllZero(e.off) /\ PcAllZero(e.cexp)) THEN "Plain"
     ELSE LET fam == IF PcAllZero(e.cexp) THEN "Offset_" ELSE "Scaled_"
              tall == Len(e.X) > PcNCols(e.X) IN
          IF e.mode = "corr" THEN (IF fam = "Offset_" THEN "Offset_corr" ELSE IF tall THEN "Scaled_corr_tall" ELSE "Scaled_corr_wide")
